@@ -151,7 +151,12 @@ theorem C15_terminates (cfg : DecCfg) (bs : Bytes) : decode cfg bs ≠ .outOfFue
 
 /-- C15: a decoded value is well formed — every reference in it, and in every object reachable from it, points to an
 allocated object (there is no nil slot: the model's values have none, the decoder pushes only allocated or atomic
-values). The `mark` / `global` sentinels may occur in it (DESIGN.md §4: an observation, not a violation). -/
+values). The `mark` / `global` sentinels may occur in it (DESIGN.md §4: an observation, not a violation).
+What the HOST unpickler builds is abstract here (`HostVerdict.construct` stands for "a fresh non-nil value"): that
+dawn's `envUnpickler` returns only well-formed values (no typed-nil pointer, nothing whose `String`/`Type`/`Truth`/
+`Hash`/`Len`/iteration panics) is the host's obligation; it is checked on the real code by the harness's
+well-formedness walker in the streams `dec.env-*` (every single-byte substitution, every truncation and seeded
+mutations of a genuine function-environment record, decoded with `envUnpickler`) and by the record-level stream. -/
 theorem C15_value_wf (cfg : DecCfg) (bs : Bytes) (h : Heap) (v : Val) (hd : decode cfg bs = .ok h v) :
     v.closed h.length ∧ ∀ o ∈ h, o.closed h.length := by
   have hsafe := decode_safe cfg bs
